@@ -155,3 +155,12 @@ Proof.
   subst d. apply Qnot_le_lt. intros L. apply Qle_bool_iff in L. congruence.
 Qed.
 Print Assumptions C19_regenerated_hypervolume_discrepancy.
+
+(* the regenerated utils.is_covered: whenever the conic program it poses has a point, vi is eps-covered by vj in the sense of the
+   definition (a cone vector u of norm at most eps with vj + u dominating vi) *)
+From VOPy Require ExtraRefine4.
+From VOPyGen Require Gen_extra4.
+Theorem C19_posed_coverage_problem_is_the_definition : forall W vi vj eps x,
+  Gen_extra4.gen_pcov_feasible W vi vj eps x -> covered W vi vj eps.
+Proof. exact ExtraRefine4.gen_pcov_feasible_covered. Qed.
+Print Assumptions C19_posed_coverage_problem_is_the_definition.
